@@ -74,12 +74,15 @@ inline T gen_app_value(mon::Rng& r, int leaf, int mode)
 }
 
 // an application value that is NOT representable in the guest type (if any)
+// which side of the destination range the poisoned value lies on when both exist (0: above the maximum, 1: below the minimum)
+inline int g_poison_below = 0;
 template<typename T, typename GT>
 inline bool unrepresentable_app_value(mon::Rng& r, T& out)
 {
   if constexpr (std::is_integral_v<T> && !std::is_same_v<T, bool>) {
-    if (ref::hi<T>() > ref::hi<GT>()) { out = static_cast<T>(ref::hi<GT>() + 1 + static_cast<i128>(r.below(3))); return true; }
-    if (ref::lo<T>() < ref::lo<GT>()) { out = static_cast<T>(ref::lo<GT>() - 1); return true; }
+    const bool hi_ok = ref::hi<T>() > ref::hi<GT>(), lo_ok = ref::lo<T>() < ref::lo<GT>();
+    if (hi_ok && (g_poison_below == 0 || !lo_ok)) { out = static_cast<T>(ref::hi<GT>() + 1 + static_cast<i128>(r.below(3))); return true; }
+    if (lo_ok) { out = static_cast<T>(ref::lo<GT>() - 1 - static_cast<i128>(r.below(3))); return true; }
   }
   (void)r; (void)out;
   return false;
@@ -88,8 +91,9 @@ template<typename T, typename GT>
 inline bool unrepresentable_guest_value(mon::Rng& r, GT& out)
 {
   if constexpr (std::is_integral_v<T> && !std::is_same_v<T, bool>) {
-    if (ref::hi<GT>() > ref::hi<T>()) { out = static_cast<GT>(ref::hi<T>() + 1 + static_cast<i128>(r.below(3))); return true; }
-    if (ref::lo<GT>() < ref::lo<T>()) { out = static_cast<GT>(ref::lo<T>() - 1); return true; }
+    const bool hi_ok = ref::hi<GT>() > ref::hi<T>(), lo_ok = ref::lo<GT>() < ref::lo<T>();
+    if (hi_ok && (g_poison_below == 0 || !lo_ok)) { out = static_cast<GT>(ref::hi<T>() + 1 + static_cast<i128>(r.below(3))); return true; }
+    if (lo_ok) { out = static_cast<GT>(ref::lo<T>() - 1 - static_cast<i128>(r.below(3))); return true; }
   }
   (void)r; (void)out;
   return false;
@@ -377,7 +381,9 @@ void run_struct(mon::Rng& rng)
     int nleaves = static_cast<int>(lay.leaves.size());
     uint64_t off = 16384;
     auto p = Wd::tptr<S>(sb, off);
-    for (int victim = 0; victim < nleaves; victim++) {
+    for (int vv = 0; vv < 2 * nleaves; vv++) {
+      int victim = vv / 2;
+      g_poison_below = vv % 2;
       // to-sandbox: store and by-value argument
       {
         tainted<S, Sbx> t;
